@@ -1265,6 +1265,69 @@ explorer!(sub,
 
 // ------------------------------------------------------------------------------------------
 
+// ------------------------------------------------------------------------------------------
+// closed and rooted `#[metrics]` structs whose fields carry attached dimensions (round 14,
+// `C15l`): "rooting a closed metric never alters what is reported" - the dimensions a format
+// sees through `close()` + `RootEntry` are the attached ones, in order, repeats included.
+
+#[metrique::unit_of_work::metrics]
+struct ClosedDims {
+    repeated_class: WithDimensions<u64, 3>,
+    repeated_pair: WithDimensions<u64, 2>,
+    same_pair_twice: WithDimensions<u64, 2>,
+    distinct: WithDimensions<u64, 2>,
+    nested: WithDimensions<WithDimensions<u64, 2>, 2>,
+    one: WithDimensions<u64, 1>,
+}
+
+const CLOSED_DIMS: &[(&str, &[(&str, &str)])] = &[
+    ("repeated_class", &[("Attempt", "1"), ("Attempt", "2"), ("Az", "a")]),
+    ("repeated_pair", &[("Az", "a"), ("Az", "b")]),
+    ("same_pair_twice", &[("Az", "a"), ("Az", "a")]),
+    ("distinct", &[("Az", "a"), ("Op", "a")]),
+    ("nested", &[("In", "x"), ("In", "y"), ("Out", "p"), ("Out", "q")]),
+    ("one", &[("Az", "a")]),
+];
+
+fn closed_and_rooted(rep: &mut Report) -> u64 {
+    fn w<const N: usize>(d: &[(&'static str, &'static str)]) -> WithDimensions<u64, N> {
+        let mut w = WithDimensions::<u64, N>::from(7u64);
+        for (k, v) in d {
+            w.add_dimension(*k, *v);
+        }
+        w
+    }
+    let d = |n: &str| CLOSED_DIMS.iter().find(|(f, _)| *f == n).unwrap().1;
+    let mut nested = WithDimensions::<WithDimensions<u64, 2>, 2>::from(w::<2>(&d("nested")[..2]));
+    for (k, v) in &d("nested")[2..] {
+        nested.add_dimension(*k, *v);
+    }
+    let m = ClosedDims {
+        repeated_class: w::<3>(d("repeated_class")),
+        repeated_pair: w::<2>(d("repeated_pair")),
+        same_pair_twice: w::<2>(d("same_pair_twice")),
+        distinct: w::<2>(d("distinct")),
+        nested,
+        one: w::<1>(d("one")),
+    };
+    let log = record(&RootEntry::new(metrique::CloseValue::close(m)));
+    let mut n = 0;
+    for (field, dims) in CLOSED_DIMS {
+        n += 1;
+        let want: Vec<(String, String)> = dims.iter().map(|(k, v)| (k.to_string(), v.to_string())).collect();
+        let got: Vec<&Val> = log.items.iter().filter_map(|i| match i { Item::Value(name, v) if name == field => Some(v), _ => None }).collect();
+        let ok = matches!(got.as_slice(), [Val::Metric { dims, obs, .. }] if *dims == want && obs.len() == 1);
+        if !ok {
+            rep.violation(
+                format!("closed-and-rooted:dimensions-differ:{field}"),
+                format!("a #[metrics] field `{field}` with the attached dimensions {want:?} is reported, closed and rooted, as {got:?}"),
+                json!({"scenario": "closed-and-rooted", "field": field, "attached": format!("{want:?}"), "reported": format!("{got:?}")}),
+            );
+        }
+    }
+    n
+}
+
 fn main() {
     let mut rep = Report::from_args("C15", "exploration");
     let bases: Vec<BaseInfo> = base_entries().into_iter().map(|(label, c)| BaseInfo { label, c, plain: describe(c) }).collect();
@@ -1357,6 +1420,8 @@ fn main() {
         }
     }
 
+    let closed_fields = if cx.filter.is_none() { closed_and_rooted(&mut rep) } else { 0 };
+    rep.set("closed_and_rooted_fields_with_attached_dimensions", closed_fields);
     let restricted = rep.tier == Tier::Thorough;
     rep.set("evaluations", cx.evaluations);
     rep.set("compositions", cx.compositions);
